@@ -86,7 +86,12 @@ def run_shard(spec):
                 total += 1
             else:
                 n = rnd.randrange(0, 13 - total)
-                chunks.append(["s", _case_mix(rnd, "".join(rnd.choice(ALPHABET) for _ in range(n)))])
+                txt = _case_mix(rnd, "".join(rnd.choice(ALPHABET) for _ in range(n)))
+                if n and rnd.random() < 0.35:
+                    # blanks are characters of the alphabet like any other: leading, trailing and whole-chunk blanks
+                    k = rnd.randrange(1, n + 1)
+                    txt = rnd.choice([txt[:n - k] + " " * k, " " * k + txt[k:], " " * n])
+                chunks.append(["s", txt])
                 total += n
         if not chunks:
             chunks = [["s", ""]]
@@ -162,6 +167,10 @@ def run_shard(spec):
                 rej.append({"kind": "rej_long", "lit": "".join(rnd.choice(ALPHABET[1:]) for _ in range(k))})
         for ch in "!#&*,;@":
             rej.append({"kind": "rej_Rforeign", "ch": ch})
+        # '^R' must be followed directly by its characters: a blank, a tab, a comment or a line break ends the (empty) literal
+        for gap in [" ", "  ", "\t", " \t ", "\n", " ; c\n", ";\n", "\n\n"]:
+            for tail in ["AB", "A", "ABC", "nop", "X9$"]:
+                rej.append({"kind": "rej_Rgap", "gap": gap, "tail": tail})
     for case in rej:
         res["violations"].extend(run_case(case, cnt))
         if case["kind"].startswith("rej"):
@@ -269,6 +278,9 @@ def run_case(case, cnt=None):
         elif kind == "rej_long":
             src = f'.word ^R{case["lit"]}\n'
             want = "invalid-string"
+        elif kind == "rej_Rgap":
+            src = f'.word ^R{case["gap"]}{case["tail"]}\n'
+            want = "ANY"
         elif kind in ("amb_char", "amb_R"):
             if kind == "amb_char":
                 t = list("AB")
